@@ -244,7 +244,15 @@ type PosReader struct {
 	// Err, if set, is the error of Mode "transient": returned once (with no data) when FailAt bytes have been
 	// delivered; the following reads deliver the rest of the data as if nothing had happened.
 	Err error
+	// Sticky error of mode "error" (ErrInjected if nil), and the number of times it has been returned: a caller that
+	// asks again and again after a persistent failure is stopped with the panic ErrSpinning after MaxFailures answers.
+	StickyErr   error
+	Failures    int
+	MaxFailures int
 }
+
+// ErrSpinning is what a PosReader panics with when its persistent error has been ignored MaxFailures times.
+var ErrSpinning = errors.New("harness: the reader's persistent error was ignored again and again")
 
 func (r *PosReader) Read(p []byte) (int, error) {
 	if len(p) == 0 {
@@ -285,6 +293,13 @@ func (r *PosReader) Read(p []byte) (int, error) {
 		if r.FailAt >= 0 && r.Pos >= r.FailAt {
 			r.Hit = true
 			if r.Mode == "error" || r.Mode == "error-with-data" {
+				r.Failures++
+				if r.MaxFailures > 0 && r.Failures > r.MaxFailures {
+					panic(ErrSpinning)
+				}
+				if r.StickyErr != nil {
+					return 0, r.StickyErr
+				}
 				return 0, ErrInjected
 			}
 			return 0, io.EOF
